@@ -19,6 +19,7 @@
 -/
 import SomeipModel.Lemmas.FTLift
 import SomeipModel.Props.C13Global
+import SomeipModel.Props.C09Time
 namespace Someip
 open Stack
 set_option linter.unusedSimpArgs false
@@ -56,6 +57,31 @@ theorem c13_find_task_on_schedule (s0 s : Stack) (es : List Event) (h0 : FreshFi
   have hi := (ftp_runAll s0 s es hrun (ftp_fresh s0 h0)).1.2
   obtain ⟨t, ht, hc, _, hrest⟩ := hi.own n hn
   exact ⟨t, by rw [getTask_find]; exact ht, hc, hrest⟩
+
+/-- **NEVER LATE, as a state invariant**: the next round step of the held find task is due at a time on schedule that the
+clock has not passed -/
+theorem c13_next_round_not_overdue (s0 s : Stack) (es : List Event) (h0 : FreshFind s0) (hrun : runAll s0 es = some s)
+    (n : Nat) (hn : s.findTask = some n) (t : TaskSt) (ht : s.getTask (.find, n) = some t) (hpc : t.pc ≠ .done) :
+    ∃ A B, anchorF n s.findMarks = some A ∧ SchF s.tm t.pc A B ∧ s.loop.now ≤ B := by
+  obtain ⟨t', ht', _, hrest⟩ := c13_find_task_on_schedule s0 s es h0 hrun n hn
+  rw [ht] at ht'; cases ht'
+  obtain ⟨A, B, hA, hS, hP⟩ := hrest hpc
+  refine ⟨A, B, hA, hS, ?_⟩
+  have hld := c09_clock_never_passes_a_deadline s0 s es h0.timers hrun
+  unfold PendF at hP
+  cases hw : t.waiting
+  · rw [hw] at hP; simp only [Bool.false_eq_true, if_false] at hP
+    exact Nat.le_of_eq hP.2.2.2
+  · rw [hw] at hP; simp only [if_true] at hP
+    obtain ⟨_, h2, h3, h4⟩ := hP
+    by_cases hq : nWRF s n = 0
+    · have hlen : (wTF s n).length = 1 := by omega
+      match hwt : wTF s n, hlen with
+      | [y], _ =>
+        have hy : y ∈ wTF s n := by rw [hwt]; exact List.mem_cons_self
+        have hyt : y ∈ s.loop.timers := (List.mem_filter.mp hy).1
+        rw [← h3 y hy]; exact hld y hyt
+    · exact Nat.le_of_eq (h4 hq)
 
 /-- **ON SCHEDULE, neither early nor late**: whenever the step of the held find task is about to run, the clock reads exactly
 (time of its previous round step, or of its creation) + (the delay of its position) -/
